@@ -95,6 +95,9 @@ def run(rep, tier):
     rep.assumptions += ["x86-64 host; allocation failure of Vec/std::string aborts and is out of scope",
                         "canary zones (32 bytes each side) stand in for ASan in the pure-Rust leg"]
     model(rep, tier)
+    # unbounded part: TLAPS proves (for ANY chunk set, capacities and call count) that the published length never exceeds
+    # the capacity, that a copy is only started when it fits, and that the length always equals the total of accepted chunks
+    rep.extra["tlaps"] = {"module": "spec/write/WriteProof.tla", "theorem": "Spec => []LenCapInv", "obligations_proved": lib.tlaps("write", "WriteProof")}
     n = replay_leg(rep, tier)
     trace_leg(rep, tier)
     rep.exhaustive = True
